@@ -1,12 +1,554 @@
 package main
 
+// More intrinsics: math/rand and time (contract stubs), package strings (exact
+// byte-level models written against the engine's decision primitive), a small regexp
+// matcher, strconv.ParseFloat.
+
 import (
+	"fmt"
+	"go/types"
+	"math"
+	"regexp"
+	"regexp/syntax"
+	"strconv"
+	"unicode/utf8"
+
 	"golang.org/x/tools/go/ssa"
 )
 
-func registerMoreIntrinsics() {}
-
-func (e *Engine) parseFloat(fn *ssa.Function, s Str, bitSize int64) Value {
-	e.unsupported("strconv.ParseFloat not modelled yet")
-	return nil
+type RandState struct {
+	seed   *Term
+	calls  int
+	global bool
+	id     int
 }
+
+type RegexpObj struct {
+	pattern string
+	re      *syntax.Regexp
+}
+
+func registerMoreIntrinsics() {
+	registerReflect()
+	I := stdIntrinsics
+
+	// ---------------- math/rand: contract stubs ----------------
+	I["math/rand.NewSource"] = func(e *Engine, caller *frame, fn *ssa.Function, args []Value) Value {
+		e.randCtr++
+		st := &RandState{seed: args[0].(*Term), id: e.randCtr}
+		cell := Value(st)
+		return Iface{T: types.NewPointer(fn.Pkg.Type("rngSource").Type()), V: &cell}
+	}
+	I["math/rand.New"] = func(e *Engine, caller *frame, fn *ssa.Function, args []Value) Value {
+		src := args[0].(Iface)
+		if src.T == nil {
+			panic(targetPanic{msg: "rand.New(nil)"})
+		}
+		p, ok := src.V.(*Value)
+		if !ok || p == nil {
+			e.unsupported("rand.New with a source that is not from rand.NewSource")
+		}
+		if _, ok := (*p).(*RandState); !ok {
+			e.unsupported("rand.New with a source that is not from rand.NewSource")
+		}
+		return p
+	}
+	randState := func(e *Engine, v Value) *RandState {
+		p, ok := v.(*Value)
+		if !ok || p == nil {
+			panic(targetPanic{msg: "runtime error: invalid memory address or nil pointer dereference (nil *rand.Rand)"})
+		}
+		st, ok := (*p).(*RandState)
+		if !ok {
+			e.unsupported("*rand.Rand not created through the rand stub")
+		}
+		return st
+	}
+	I["(*math/rand.Rand).Intn"] = func(e *Engine, caller *frame, fn *ssa.Function, args []Value) Value {
+		st := randState(e, args[0])
+		n := args[1].(*Term)
+		if e.decide(e.tt.SLe(n, e.tt.IntConst(0, 64))) {
+			panic(targetPanic{msg: "invalid argument to Intn"})
+		}
+		st.calls++
+		r := e.tt.App("rand.Intn", BVSort(64), st.seed, e.tt.IntConst(int64(st.calls), 64), n)
+		e.assume(e.tt.And(e.tt.SLe(e.tt.IntConst(0, 64), r), e.tt.SLt(r, n)))
+		e.randLog = append(e.randLog, randCall{st.id, "Intn", n, r})
+		return r
+	}
+	I["(*math/rand.Rand).Float64"] = func(e *Engine, caller *frame, fn *ssa.Function, args []Value) Value {
+		st := randState(e, args[0])
+		st.calls++
+		r := e.tt.App("rand.Float64", F64Sort, st.seed, e.tt.IntConst(int64(st.calls), 64))
+		e.assume(e.tt.And(e.tt.FLe(e.tt.F64Const(0), r), e.tt.FLt(r, e.tt.F64Const(1))))
+		e.randLog = append(e.randLog, randCall{st.id, "Float64", nil, r})
+		return r
+	}
+	I["(*math/rand.Rand).Int63"] = func(e *Engine, caller *frame, fn *ssa.Function, args []Value) Value {
+		st := randState(e, args[0])
+		st.calls++
+		r := e.tt.App("rand.Int63", BVSort(64), st.seed, e.tt.IntConst(int64(st.calls), 64))
+		e.assume(e.tt.SLe(e.tt.IntConst(0, 64), r))
+		return r
+	}
+	I["(*math/rand.rngSource).Int63"] = I["(*math/rand.Rand).Int63"]
+	envI63 := func(what string) intrinsic {
+		return func(e *Engine, caller *frame, fn *ssa.Function, args []Value) Value {
+			e.envCtr++
+			in := e.input(fmt.Sprintf("env.%s.%d", what, e.envCtr), "int", BVSort(64))
+			e.assume(e.tt.SLe(e.tt.IntConst(0, 64), in.t))
+			return in.t
+		}
+	}
+	I["math/rand.Int63"] = envI63("rand.Int63")
+	I["math/rand.Int"] = envI63("rand.Int")
+	I["math/rand.Intn"] = func(e *Engine, caller *frame, fn *ssa.Function, args []Value) Value {
+		n := args[0].(*Term)
+		if e.decide(e.tt.SLe(n, e.tt.IntConst(0, 64))) {
+			panic(targetPanic{msg: "invalid argument to Intn"})
+		}
+		e.envCtr++
+		in := e.input(fmt.Sprintf("env.rand.Intn.%d", e.envCtr), "int", BVSort(64))
+		e.assume(e.tt.And(e.tt.SLe(e.tt.IntConst(0, 64), in.t), e.tt.SLt(in.t, n)))
+		return in.t
+	}
+	I["math/rand.Float64"] = func(e *Engine, caller *frame, fn *ssa.Function, args []Value) Value {
+		e.envCtr++
+		in := e.input(fmt.Sprintf("env.rand.Float64.%d", e.envCtr), "f64", F64Sort)
+		e.assume(e.tt.And(e.tt.FLe(e.tt.F64Const(0), in.t), e.tt.FLt(in.t, e.tt.F64Const(1))))
+		return in.t
+	}
+
+	// ---------------- time ----------------
+	I["time.Now"] = func(e *Engine, caller *frame, fn *ssa.Function, args []Value) Value {
+		e.envCtr++
+		in := e.input(fmt.Sprintf("env.time.Now.%d", e.envCtr), "int", BVSort(64))
+		return TimeVal{ns: in.t}
+	}
+	I["(time.Time).Unix"] = func(e *Engine, caller *frame, fn *ssa.Function, args []Value) Value {
+		return args[0].(TimeVal).ns
+	}
+	I["(time.Time).UnixNano"] = I["(time.Time).Unix"]
+
+	// ---------------- strings ----------------
+	I["strings.TrimSpace"] = func(e *Engine, caller *frame, fn *ssa.Function, args []Value) Value {
+		s := args[0].(Str)
+		if s.IsConcrete() {
+			return Str{s: stringsTrimSpace(s.s)}
+		}
+		b := e.strBytes(s)
+		start, end := 0, len(b)
+		for start < end {
+			r, w := e.decodeRune(b[start:end])
+			if !e.decide(e.uniPred("IsSpace", r)) {
+				break
+			}
+			start += w
+		}
+		for end > start {
+			r, w := e.decodeLastRune(b[start:end])
+			if !e.decide(e.uniPred("IsSpace", r)) {
+				break
+			}
+			end -= w
+		}
+		return e.mkStr(b[start:end])
+	}
+	I["strings.ToLower"] = func(e *Engine, caller *frame, fn *ssa.Function, args []Value) Value {
+		s := args[0].(Str)
+		if s.IsConcrete() {
+			return Str{s: stringsToLower(s.s)}
+		}
+		b := e.strBytes(s)
+		tt := e.tt
+		ascii := true
+		for _, c := range b {
+			if !e.decide(tt.ULt(c, tt.BVConst(0x80, 8))) {
+				ascii = false
+				break
+			}
+		}
+		if ascii {
+			out := make([]*Term, len(b))
+			for i, c := range b {
+				up := tt.And(tt.ULe(tt.BVConst('A', 8), c), tt.ULe(c, tt.BVConst('Z', 8)))
+				out[i] = tt.Ite(up, tt.Add(c, tt.BVConst('a'-'A', 8)), c)
+			}
+			return e.mkStr(out)
+		}
+		var out []*Term
+		toLower := stdIntrinsics["unicode.ToLower"]
+		for i := 0; i < len(b); {
+			r, w := e.decodeRune(b[i:])
+			i += w
+			if w == 1 && r.IsConst() && r.BV == utf8.RuneError {
+				out = append(out, tt.BVConst(0xEF, 8), tt.BVConst(0xBF, 8), tt.BVConst(0xBD, 8))
+				continue
+			}
+			r2 := toLower(e, caller, fn, []Value{r}).(*Term)
+			out = append(out, e.encodeRune(r2)...)
+		}
+		return e.mkStr(out)
+	}
+	I["strings.Count"] = func(e *Engine, caller *frame, fn *ssa.Function, args []Value) Value {
+		s, sub := args[0].(Str), args[1].(Str)
+		if s.IsConcrete() && sub.IsConcrete() {
+			return e.tt.IntConst(int64(stringsCount(s.s, sub.s)), 64)
+		}
+		if sub.Len() == 0 {
+			n := 0
+			b := e.strBytes(s)
+			for i := 0; i < len(b); {
+				_, w := e.decodeRune(b[i:])
+				i += w
+				n++
+			}
+			return e.tt.IntConst(int64(n+1), 64)
+		}
+		n := 0
+		for i := 0; i+sub.Len() <= s.Len(); {
+			if e.decide(e.strEq(e.strSlice(s, i, i+sub.Len()), sub)) {
+				n++
+				i += sub.Len()
+			} else {
+				i++
+			}
+		}
+		return e.tt.IntConst(int64(n), 64)
+	}
+	I["strings.Index"] = func(e *Engine, caller *frame, fn *ssa.Function, args []Value) Value {
+		return e.tt.IntConst(int64(e.strIndex(args[0].(Str), args[1].(Str))), 64)
+	}
+	I["strings.Contains"] = func(e *Engine, caller *frame, fn *ssa.Function, args []Value) Value {
+		return e.tt.Bool(e.strIndex(args[0].(Str), args[1].(Str)) >= 0)
+	}
+	I["strings.IndexByte"] = func(e *Engine, caller *frame, fn *ssa.Function, args []Value) Value {
+		s := args[0].(Str)
+		c := args[1].(*Term)
+		for i := 0; i < s.Len(); i++ {
+			if e.decide(e.tt.Eq(e.strByte(s, i), c)) {
+				return e.tt.IntConst(int64(i), 64)
+			}
+		}
+		return e.tt.IntConst(-1, 64)
+	}
+	I["internal/bytealg.IndexByteString"] = I["strings.IndexByte"]
+	I["internal/bytealg.CountString"] = func(e *Engine, caller *frame, fn *ssa.Function, args []Value) Value {
+		s := args[0].(Str)
+		c := args[1].(*Term)
+		n := 0
+		for i := 0; i < s.Len(); i++ {
+			if e.decide(e.tt.Eq(e.strByte(s, i), c)) {
+				n++
+			}
+		}
+		return e.tt.IntConst(int64(n), 64)
+	}
+	I["strings.ReplaceAll"] = func(e *Engine, caller *frame, fn *ssa.Function, args []Value) Value {
+		return e.strReplace(args[0].(Str), args[1].(Str), args[2].(Str), -1)
+	}
+	I["strings.Replace"] = func(e *Engine, caller *frame, fn *ssa.Function, args []Value) Value {
+		return e.strReplace(args[0].(Str), args[1].(Str), args[2].(Str), int(concreteIntArg(e, args[3], "strings.Replace n")))
+	}
+	I["strings.Split"] = func(e *Engine, caller *frame, fn *ssa.Function, args []Value) Value {
+		s, sep := args[0].(Str), args[1].(Str)
+		if sep.Len() == 0 {
+			e.unsupported("strings.Split with an empty separator")
+		}
+		out := Slice{}
+		start := 0
+		i := 0
+		for i+sep.Len() <= s.Len() {
+			if e.decide(e.strEq(e.strSlice(s, i, i+sep.Len()), sep)) {
+				out = append(out, e.strSlice(s, start, i))
+				i += sep.Len()
+				start = i
+			} else {
+				i++
+			}
+		}
+		out = append(out, e.strSlice(s, start, s.Len()))
+		return out
+	}
+	I["strings.Fields"] = func(e *Engine, caller *frame, fn *ssa.Function, args []Value) Value {
+		s := args[0].(Str)
+		b := e.strBytes(s)
+		out := Slice{}
+		start := -1
+		for i := 0; i < len(b); {
+			r, w := e.decodeRune(b[i:])
+			if e.decide(e.uniPred("IsSpace", r)) {
+				if start >= 0 {
+					out = append(out, e.mkStr(b[start:i]))
+					start = -1
+				}
+			} else if start < 0 {
+				start = i
+			}
+			i += w
+		}
+		if start >= 0 {
+			out = append(out, e.mkStr(b[start:]))
+		}
+		return out
+	}
+
+	// ---------------- regexp ----------------
+	compile := func(e *Engine, pat Str) (Value, error) {
+		p := e.concretizeStr(pat)
+		if _, err := regexp.Compile(p); err != nil {
+			return nil, err
+		}
+		re, err := syntax.Parse(p, syntax.Perl)
+		if err != nil {
+			return nil, err
+		}
+		cell := Value(&RegexpObj{pattern: p, re: re.Simplify()})
+		return &cell, nil
+	}
+	I["regexp.MustCompile"] = func(e *Engine, caller *frame, fn *ssa.Function, args []Value) Value {
+		v, err := compile(e, args[0].(Str))
+		if err != nil {
+			panic(targetPanic{msg: "regexp: Compile: " + err.Error()})
+		}
+		return v
+	}
+	I["regexp.Compile"] = func(e *Engine, caller *frame, fn *ssa.Function, args []Value) Value {
+		v, err := compile(e, args[0].(Str))
+		if err != nil {
+			return Tuple{(*Value)(nil), e.mkFmtError(fn, []Value{Str{s: err.Error()}, Slice(nil)})}
+		}
+		return Tuple{v, Iface{}}
+	}
+	I["(*regexp.Regexp).FindStringIndex"] = func(e *Engine, caller *frame, fn *ssa.Function, args []Value) Value {
+		ro := (*args[0].(*Value)).(*RegexpObj)
+		s := args[1].(Str)
+		lo, hi, ok := e.regexFind(ro, s)
+		if !ok {
+			return Slice(nil)
+		}
+		return Slice{e.tt.IntConst(int64(lo), 64), e.tt.IntConst(int64(hi), 64)}
+	}
+	I["(*regexp.Regexp).MatchString"] = func(e *Engine, caller *frame, fn *ssa.Function, args []Value) Value {
+		ro := (*args[0].(*Value)).(*RegexpObj)
+		_, _, ok := e.regexFind(ro, args[1].(Str))
+		return e.tt.Bool(ok)
+	}
+}
+
+type TimeVal struct{ ns *Term }
+
+type randCall struct {
+	src    int
+	method string
+	arg    *Term
+	res    *Term
+}
+
+func (e *Engine) strIndex(s, sub Str) int {
+	for i := 0; i+sub.Len() <= s.Len(); i++ {
+		if e.decide(e.strEq(e.strSlice(s, i, i+sub.Len()), sub)) {
+			return i
+		}
+	}
+	return -1
+}
+
+func (e *Engine) strReplace(s, old, nw Str, n int) Str {
+	if old.Len() == 0 {
+		if s.IsConcrete() && nw.IsConcrete() {
+			return Str{s: stringsReplace(s.s, "", nw.s, n)}
+		}
+		e.unsupported("strings.Replace with an empty old string on symbolic data")
+	}
+	var out []*Term
+	cnt := 0
+	i := 0
+	for i < s.Len() {
+		if (n < 0 || cnt < n) && i+old.Len() <= s.Len() && e.decide(e.strEq(e.strSlice(s, i, i+old.Len()), old)) {
+			out = append(out, e.strBytes(nw)...)
+			i += old.Len()
+			cnt++
+		} else {
+			out = append(out, e.strByte(s, i))
+			i++
+		}
+	}
+	return e.mkStr(out)
+}
+
+// ---- regexp matcher over symbolic bytes: leftmost-first backtracking ----
+
+func (e *Engine) regexFind(ro *RegexpObj, s Str) (int, int, bool) {
+	b := e.strBytes(s)
+	for start := 0; start <= len(b); start++ {
+		end := -1
+		if e.reMatch(ro.re, b, start, func(p int) bool { end = p; return true }) {
+			return start, end, true
+		}
+	}
+	return 0, 0, false
+}
+
+func (e *Engine) reMatch(re *syntax.Regexp, b []*Term, pos int, k func(int) bool) bool {
+	tt := e.tt
+	switch re.Op {
+	case syntax.OpEmptyMatch:
+		return k(pos)
+	case syntax.OpLiteral:
+		if re.Flags&syntax.FoldCase != 0 {
+			e.unsupported("regexp: case-insensitive literal")
+		}
+		var lit []byte
+		for _, r := range re.Rune {
+			if r == utf8.RuneError {
+				e.unsupported("regexp: U+FFFD literal")
+			}
+			lit = utf8.AppendRune(lit, r)
+		}
+		if pos+len(lit) > len(b) {
+			return false
+		}
+		c := tt.True
+		for i, ch := range lit {
+			c = tt.And(c, tt.Eq(b[pos+i], tt.BVConst(uint64(ch), 8)))
+		}
+		if !e.decide(c) {
+			return false
+		}
+		return k(pos + len(lit))
+	case syntax.OpCharClass:
+		if pos >= len(b) {
+			return false
+		}
+		c := tt.False
+		for i := 0; i+1 < len(re.Rune); i += 2 {
+			lo, hi := re.Rune[i], re.Rune[i+1]
+			if hi >= 0x80 {
+				e.unsupported("regexp: non-ASCII character class")
+			}
+			c = tt.Or(c, tt.And(tt.ULe(tt.BVConst(uint64(lo), 8), b[pos]), tt.ULe(b[pos], tt.BVConst(uint64(hi), 8))))
+		}
+		if !e.decide(c) {
+			return false
+		}
+		return k(pos + 1)
+	case syntax.OpCapture:
+		return e.reMatch(re.Sub[0], b, pos, k)
+	case syntax.OpConcat:
+		var step func(i, p int) bool
+		step = func(i, p int) bool {
+			if i == len(re.Sub) {
+				return k(p)
+			}
+			return e.reMatch(re.Sub[i], b, p, func(q int) bool { return step(i+1, q) })
+		}
+		return step(0, pos)
+	case syntax.OpAlternate:
+		for _, sub := range re.Sub {
+			if e.reMatch(sub, b, pos, k) {
+				return true
+			}
+		}
+		return false
+	case syntax.OpQuest:
+		if re.Flags&syntax.NonGreedy != 0 {
+			return k(pos) || e.reMatch(re.Sub[0], b, pos, k)
+		}
+		return e.reMatch(re.Sub[0], b, pos, k) || k(pos)
+	case syntax.OpStar, syntax.OpPlus:
+		if re.Flags&syntax.NonGreedy != 0 {
+			e.unsupported("regexp: non-greedy repetition")
+		}
+		var loop func(p int, first bool) bool
+		loop = func(p int, first bool) bool {
+			if e.reMatch(re.Sub[0], b, p, func(q int) bool {
+				if q == p {
+					return false
+				}
+				return loop(q, false)
+			}) {
+				return true
+			}
+			if first && re.Op == syntax.OpPlus {
+				return false
+			}
+			return k(p)
+		}
+		return loop(pos, true)
+	case syntax.OpBeginText:
+		if pos == 0 {
+			return k(pos)
+		}
+		return false
+	case syntax.OpEndText:
+		if pos == len(b) {
+			return k(pos)
+		}
+		return false
+	}
+	e.unsupported("regexp: operator %v in pattern", re.Op)
+	return false
+}
+
+// ---- strconv.ParseFloat (contract stub, DESIGN 3.6(3)) ----
+//
+// Acceptance (syntax) is decided exactly for strings of at most 4 bytes by enumeration of the
+// grammar on byte classes; the numeric value is exact for plain digit strings and otherwise an
+// uninterpreted function of the bytes. Concrete strings are parsed natively.
+func (e *Engine) parseFloat(fn *ssa.Function, s Str, bitSize int64) Value {
+	mkErr := func() Value {
+		return e.mkFmtError(fn, []Value{Str{s: "strconv.ParseFloat: parsing: invalid syntax"}, Slice(nil)})
+	}
+	if s.IsConcrete() {
+		f, err := strconv.ParseFloat(s.s, int(bitSize))
+		if err != nil {
+			return Tuple{e.tt.F64Const(f), mkErr()}
+		}
+		return Tuple{e.tt.F64Const(f), Iface{}}
+	}
+	if s.Len() > 4 {
+		e.unsupported("strconv.ParseFloat of a symbolic string longer than 4 bytes")
+	}
+	// Acceptance is decided by running the real strconv.special and strconv.readFloat from
+	// their SSA on the symbolic bytes (for at most 4 bytes there are no hex floats and no
+	// range errors, so syntax acceptance is the whole story).
+	tt := e.tt
+	spec := fn.Pkg.Func("special")
+	rf := fn.Pkg.Func("readFloat")
+	if spec == nil || rf == nil {
+		e.unsupported("strconv internals not found")
+	}
+	sr := e.callSSA(nil, spec, []Value{s}, nil).(Tuple)
+	if sr[2].(*Term).IsTrue() && sr[1].(*Term).IsConst() && int(sr[1].(*Term).Int()) == s.Len() {
+		return Tuple{sr[0], Iface{}}
+	}
+	rr := e.callSSA(nil, rf, []Value{s}, nil).(Tuple)
+	mant, exp, neg, hex, n, ok := rr[0].(*Term), rr[1].(*Term), rr[2].(*Term), rr[4].(*Term), rr[5].(*Term), rr[6].(*Term)
+	if !ok.IsConst() || !n.IsConst() || !neg.IsConst() || !hex.IsConst() {
+		e.unsupported("strconv.readFloat returned symbolic control results")
+	}
+	if !ok.IsTrue() || int(n.Int()) != s.Len() {
+		return Tuple{tt.F64Const(0), mkErr()}
+	}
+	if hex.IsTrue() {
+		e.unsupported("hex float on a symbolic string")
+	}
+	if exp.IsConst() && exp.Int() == 0 {
+		// plain (signed, possibly underscored) integer literal: exact value; mantissa < 10^4 < 2^16
+		v := tt.UBVToFP(tt.Extract(mant, 15, 0), F64Sort)
+		if neg.IsTrue() {
+			v = tt.FNeg(v)
+		}
+		return Tuple{v, Iface{}}
+	}
+	args := make([]*Term, s.Len())
+	copy(args, e.strBytes(s))
+	v := tt.App(fmt.Sprintf("strconv.ParseFloat.%d", s.Len()), F64Sort, args...)
+	return Tuple{v, Iface{}}
+}
+
+// native helpers kept separate so the intrinsics read clearly
+func stringsTrimSpace(s string) string { return stringsTrim(s) }
+
+var _ = math.Pi
